@@ -47,6 +47,7 @@ type AsyncScn struct {
 	WriteFailAt int      `json:"write_fail_at,omitempty"` // C12 (File kind): the k-th write to the file is refused by the OS once (ENOSPC); everything else must still arrive
 	HName      string    `json:"handle_name,omitempty"`  // C12 (Refresh-built): the logger's name, if not "alog"
 	LongRun    int       `json:"long_run,omitempty"`     // C06: two producers submit this many items against a held worker
+	WriteFail  bool      `json:"write_fail,omitempty"`   // C05 (file-backed kinds): two writes to the log files are refused by the OS (ENOSPC) while the producers run
 	SyncFail   bool      `json:"sync_fail,omitempty"`    // C05: fsync on the log files fails (EINVAL, as on a pipe or a full disk) from before Stop on
 	Rejected   bool      `json:"rejected_refresh,omitempty"` // C05 (Refresh-built): a second Refresh is attempted (and rejected) while the configuration is live
 	DefaultSize bool     `json:"default_size,omitempty"` // the bufferSize attribute is omitted: the declared default (10000) applies
